@@ -158,8 +158,8 @@ TEMPLATES = {
     "PMidiSemitonesToFrequencyRatio": lambda r: [("input", r.randint(-12, 12))],
     "PKeyTonic": lambda r: [("key", r.choice([None, K(r.randint(0, 11), "major"), K(r.randint(0, 11), "minor")]))],
     "PKeyScale": lambda r: [("key", K(r.randint(0, 11), r.choice(["major", "minor"])))],
-    "PTri": lambda r: [("length", r.randint(3, 9)), ("min", flt(r, -2, 1)), ("max", flt(r, 2, 5))],
-    "PSaw": lambda r: [("length", r.randint(3, 9)), ("min", flt(r, -2, 1)), ("max", flt(r, 2, 5))],
+    "PTri": lambda r: [("length", r.choice([2, 4, 8, 16, 4, 8, r.randint(3, 9)])), ("min", flt(r, -2, 1)), ("max", flt(r, 2, 5))],
+    "PSaw": lambda r: [("length", r.choice([2, 4, 8, 16, 4, 8, r.randint(3, 9)])), ("min", flt(r, -2, 1)), ("max", flt(r, 2, 5))],
 }
 for _n, (_sym, _) in BINOPS.items():
     TEMPLATES[_n] = _binop(nz=_n in ("PDiv", "PFloorDiv", "PMod"), small=_n in ("PPow", "PLShift", "PRShift"))
@@ -425,8 +425,29 @@ def registry_checks(run, pairs, outside, view):
     accepting = {k: i for k, i in pairs.items() if i["mode"] in ("value", "items")}
     judged = {k: i for k, i in accepting.items() if k not in NOT_ACCEPTING}
     missing = sorted(k for k in judged if k[0] not in TEMPLATES or not any(p == k[1] for p, _ in TEMPLATES[k[0]](random.Random(0))))
-    if missing:
-        raise CheckError("registry pairs without a generator (add a template or an explicit exclusion): %s" % missing)
+    # a class that cannot be built by itself (its __next__ calls a hook that only raises NotImplementedError) and whose code - the
+    # __next__ and the constructor - is run unchanged by registered subclasses is exercised THROUGH those subclasses
+    through = {}
+    for k in list(missing):
+        i = judged[k]
+        subs = sorted(c for (c, p), j in judged.items() if p == k[1] and (c, p) not in missing and k[0] in j.get("bases", [])
+                      and j.get("code_owner") == i.get("code_owner"))
+        if i.get("placeholder_methods") and subs:
+            through["%s.%s" % k] = subs
+            missing.remove(k)
+            del judged[k]
+    run.cov["pairs_exercised_through_subclasses"] = through
+    # FAIL CLOSED: every other class of isobar/pattern/*.py that resolves a constructor parameter with Pattern.value and is
+    # neither registered here (TEMPLATES) nor excluded with a reason (c12_registry.OUTSIDE, NOT_ACCEPTING) is a pair the
+    # property quantifies over and this check cannot judge
+    for k in missing:
+        i = judged.pop(k)
+        run.violation({"kind": "registry", "class": k[0], "param": k[1], "what": "unregistered-pair"}, {
+            "broken": "registry: %s.%s (isobar/pattern/%s) resolves its parameter with Pattern.value at every step - it accepts a pattern - but "
+                      "the check has neither a generator for the class nor a stated reason to leave it out: C12 is not established for this pair"
+                      % (k[0], k[1], i["file"]),
+            "python": "# class %s in isobar/pattern/%s; add a template to harness/c12.py TEMPLATES or an exclusion with its reason" % (k[0], i["file"])},
+            found_input=False)
     stale = sorted(k for k in NOT_ACCEPTING if k not in accepting)
     if stale:
         raise CheckError("exclusions that the source no longer justifies: %s" % stale)
@@ -793,6 +814,7 @@ def check(run, only=None):
     LIVE.keyorder_checks(run, rng, report, Job, run_jobs, thorough)
     LIVE.live_checks(run, rng, report, thorough)
     model_checks(run, insts, report)
+    LIVE.osc_model_checks(run, insts, report)
     if insts:
       run.sample({"pair": "%s.%s" % insts[0]["pair"], "scalar": to_source(insts[0]["scalar"].expr),
                   "varying": to_source(insts[0]["varying"].expr), "outputs": pretty_list(insts[0]["varying"].obs),
